@@ -378,6 +378,58 @@ func (x *Exec) structural() {
 		}
 		x.oblige(&State{x: x}, x.key+"#noglobals", "frame", con.NoGlobals, goal, pos, text)
 	}
+	for _, nr := range con.NoReads {
+		parts := strings.SplitN(nr.Callee, ".", 2)
+		if len(parts) != 2 {
+			x.genFail(x.key+"#noreads", "frame", nr.Tags, pos, "noreads needs Type.field")
+			continue
+		}
+		seen := map[*ssa.Function]bool{}
+		var bad []string
+		var walk func(fn *ssa.Function)
+		check := func(t types.Type, idx int, fn *ssa.Function) {
+			if p, ok := t.Underlying().(*types.Pointer); ok {
+				t = p.Elem()
+			}
+			named, _ := t.(*types.Named)
+			st, ok := t.Underlying().(*types.Struct)
+			if !ok || named == nil || named.Obj().Name() != parts[0] {
+				return
+			}
+			if idx < st.NumFields() && st.Field(idx).Name() == parts[1] {
+				bad = append(bad, fnKey(fn))
+			}
+		}
+		walk = func(fn *ssa.Function) {
+			if seen[fn] || len(fn.Blocks) == 0 {
+				return
+			}
+			seen[fn] = true
+			for _, b := range fn.Blocks {
+				for _, in := range b.Instrs {
+					switch i := in.(type) {
+					case *ssa.FieldAddr:
+						check(i.X.Type(), i.Field, fn)
+					case *ssa.Field:
+						check(i.X.Type(), i.Field, fn)
+					case ssa.CallInstruction:
+						if callee := i.Common().StaticCallee(); callee != nil && callee.Pkg != nil && strings.HasPrefix(callee.Pkg.Pkg.Path(), modPrefix) {
+							if cc, _ := x.contractFor(callee); cc == nil || cc.Inline {
+								walk(callee)
+							}
+						}
+					}
+				}
+			}
+		}
+		walk(x.fn)
+		goal, text := "true", "the function never reads "+nr.Callee
+		if len(bad) > 0 {
+			goal = "false"
+			text += " (read in " + strings.Join(bad, ", ") + ")"
+		}
+		x.oblige(&State{x: x}, x.key+"#noreads."+nr.Callee, "frame", nr.Tags, goal, pos, text)
+	}
 	if d := con.Delegates; d != nil {
 		ok, why := x.checkDelegates(d)
 		goal := "true"
